@@ -65,6 +65,10 @@ pub fn run(rep: &mut Report) {
         let pattern = print(&nodes, rng, false);
         let mut ctx = gen_ctx(rng, &[]);
         ctx.message = (0..1 + rng.usize_below(3)).map(|_| *rng.pick(&TEXTS[..])).collect::<Vec<_>>().join("");
+        if rng.chance(1, 8) {
+            // a compile-time literal message (`args().as_str()` is Some): see `with_record`
+            ctx.message = (*rng.pick(&LITERALS[..])).to_owned();
+        }
         ctx.target = (*rng.pick(&TEXTS[..])).to_owned();
         let has_width = pattern.contains(':');
         rep.case(&format!("{}|{}|{}", pattern, ctx.message, ctx.target), has_width);
